@@ -120,7 +120,12 @@ pub fn plan(prop: &str, tier: Tier) -> Option<Plan> {
             vec!["schedule part: sampled schedules under the operational memory model of DESIGN.md section 4.4".into()],
             {
                 let mut v = sized_jobs("C09", if q { 48 } else { 128 }, if q { 6000 } else { 100_000 }, both);
+                // the unwrap family over the whole shape matrix (release layout of into_inner / try_unwrap)
+                v.push(job(MatrixEngine::new("C09"), if q { 20_000 } else { 500_000 }, "all"));
                 v.push(jobb(sched_engine("tok8", "C09", 24), if q { 50_000 } else { 1_500_000 }, "all"));
+                // payloads without drop glue; with interior mutability the moved-out value must be the current one
+                v.push(jobb(sched_engine("plain8", "C09", 24), if q { 15_000 } else { 400_000 }, "all"));
+                v.push(jobb(sched_engine("bump8", "C09", 24), if q { 30_000 } else { 800_000 }, "all"));
                 v.push(jobb(sched_engine("tok8", "C09", 24), if q { 10_000 } else { 300_000 }, "nostd"));
                 v
             },
